@@ -58,6 +58,7 @@ TValNobody == Ev("ValFinish") /\ vrun[Tr[l].e] = 0 /\ UNCHANGED vars /\ PostOk
 TFire == Ev("Fire") /\ Fire /\ PostOk
 TFireNone == Ev("Fire") /\ Due = {} /\ UNCHANGED vars /\ PostOk
 TTick == Ev("Tick") /\ Tick /\ PostOk
+TJump == Ev("Jump") /\ Jump(Tr[l].to) /\ PostOk
 TCancel == Ev("Cancel") /\ Cancel(Tr[l].e) /\ PostOk
 TCancelDone == Ev("Cancel") /\ ph[Tr[l].e] \in {"fin", "unused"} /\ UNCHANGED vars /\ PostOk
 TShutdown == Ev("Shutdown") /\ Shutdown /\ PostOk
@@ -66,7 +67,7 @@ TRecvNack == Ev("RecvNack") /\ RecvNackX(Tr[l].t, Tr[l].r, Tr[l].env, SeqToSet(T
 TRecvJunk == Ev("RecvJunk") /\ RecvJunk("junk") /\ PostOk
 
 TNext == \/ TExpress \/ TAwait \/ TExpressDown \/ TRecvData \/ TValFinish \/ TValNobody \/ TFire \/ TFireNone
-         \/ TTick \/ TCancel \/ TCancelDone \/ TShutdown \/ TConnect \/ TRecvNack \/ TRecvJunk
+         \/ TTick \/ TJump \/ TCancel \/ TCancelDone \/ TShutdown \/ TConnect \/ TRecvNack \/ TRecvJunk
 TSpec == TInit /\ [][TNext]_tvars
 
 Mark == TLCSet(tid, Max2(TLCGet(tid), l))
